@@ -1,6 +1,7 @@
 package main
 
 import (
+	"fmt"
 	"go/token"
 	"go/types"
 
@@ -14,6 +15,8 @@ var e14 = []string{"(*Schema).AddType", "(*Schema).RemoveType", "(*Schema).AddAt
 	"(*Type).AddAttr", "(*Type).RemoveAttr", "(*Type).AddRel", "(*Type).RemoveRel"}
 
 func checkC14(p *Prog, r *Report) {
+	r.rule("C14.two-way-lookups: in AddTwoWayRel each end's type is taken from the schema under that end's own name test and no other test inside the lookup loop")
+	checkTwoWayLookupsIndependent(p, r)
 	r.rule("C14.type-lookup: Schema.GetType / HasType find a type by one exact equality test between a type's Name and the requested name and call nothing else (the comparison AddType uses to keep names unique)")
 	checkTypeLookup(p, r, "C14")
 	r.rule(r3RuleText)
@@ -616,4 +619,64 @@ func checkTypeLookup(p *Prog, r *Report, prefix string) {
 		}
 		r.decide(good, prefix+".type-lookup", name+":exact-name", p.pos(f.Pos()), "finds a type by exact equality of its Name (as AddType's uniqueness test does)", name+" does not find types by exact name equality: "+why+"; two types that AddType keeps apart can answer to the same name")
 	}
+}
+
+// checkTwoWayLookupsIndependent: AddTwoWayRel finds the types of the two ends
+// independently: each assignment of a type found in the schema is guarded by
+// the equality of that type's name with that end's type name and by nothing
+// about the other end (a relationship between a type and itself has both ends
+// on one element).
+func checkTwoWayLookupsIndependent(p *Prog, r *Report) {
+	f := p.Fn("(*Schema).AddTwoWayRel")
+	if f == nil {
+		r.fail("anchor (*Schema).AddTwoWayRel not found")
+		return
+	}
+	n := 0
+	for _, h := range f.Blocks {
+		loop := naturalLoop(h)
+		if loop == nil {
+			continue
+		}
+		for b := range loop {
+			for _, ins := range b.Instrs {
+				ia, ok := ins.(*ssa.IndexAddr)
+				if !ok {
+					continue
+				}
+				if _, fl, ok := fieldLoad(ia.X); !ok || fl != "Types" {
+					continue
+				}
+				// &s.Types[i] taken as a value (flows to a phi / store), not only dereferenced
+				taken := false
+				for _, ref := range referrers(ia) {
+					switch ref.(type) {
+					case *ssa.Phi, *ssa.Store:
+						taken = true
+					}
+				}
+				if !taken {
+					continue
+				}
+				n++
+				nameTests := 0
+				for _, ef := range factsAt(b) {
+					if ef.From == nil || !loop[ef.From] || ef.From == h {
+						continue
+					}
+					bo, ok := ef.Cond.(*ssa.BinOp)
+					if !ok {
+						continue
+					}
+					if _, fl, ok := fieldLoad(bo.X); ok && fl == "Name" {
+						nameTests++
+					} else if _, fl, ok := fieldLoad(bo.Y); ok && fl == "Name" {
+						nameTests++
+					}
+				}
+				r.decide(nameTests == 1, "C14.two-way-lookups", "AddTwoWayRel:"+p.describe(ia), p.pos(ia.Pos()), "guarded by its own name test only", fmt.Sprintf("the type of one end is looked up under %d name tests: whether it is found depends on the other end's test, so a relationship between a type and itself does not find its second end", nameTests))
+			}
+		}
+	}
+	r.floor("type lookups in AddTwoWayRel", n, 2)
 }
